@@ -405,7 +405,8 @@ def _emit_leading_comments(comments: list[str], indent: int = 0, strip_comments:
     if strip_comments or not comments:
         return []
     indent_str = "  " * indent
-    return [f"{indent_str}// {comment}" for comment in comments]
+    # rstrip: an empty comment is emitted as "//" (no trailing whitespace in canonical text)
+    return [f"{indent_str}// {comment}".rstrip() for comment in comments]
 
 
 def _emit_trailing_comment(comment: str | None, strip_comments: bool = False) -> str:
@@ -435,7 +436,7 @@ def emit_comment(comment: Comment, indent: int = 0, format_options: FormatOption
         return ""
 
     indent_str = "  " * indent
-    return f"{indent_str}// {comment.text}"
+    return f"{indent_str}// {comment.text}".rstrip()
 
 
 def emit_assignment(assignment: Assignment, indent: int = 0, format_options: FormatOptions | None = None) -> str:
